@@ -124,10 +124,12 @@ def facts_path(repo=REPO):
         if nonce not in head:
             raise ExtractionError('stale fact file: nonce mismatch')
         os.replace(produced, final)
-        # keep the cache small: drop fact files other than the most recently used 6
+        # keep the cache small: drop fact files other than the most recently used ones (DV_CACHE_KEEP, default 24: ~17 MB each;
+        # several trees are analysed side by side when patches are tried on scratch worktrees)
+        keep = max(2, int(os.environ.get('DV_CACHE_KEEP', '24')))
         olds = sorted((f for f in os.listdir(CACHE) if f.startswith('facts-') and f.endswith('.json')),
                       key=lambda f: os.path.getmtime(os.path.join(CACHE, f)))
-        for f in olds[:-6]:
+        for f in olds[:-keep]:
             os.remove(os.path.join(CACHE, f))
             for g in os.listdir(CACHE):
                 if g.startswith('e1-' + f[len('facts-'):-len('.json')]):
